@@ -31,7 +31,7 @@ ASSUMPTIONS = [
 ]
 TRUSTED = ["z3 5.1", "vt.models (builtin models + axioms)", "vt.sym explorer"]
 BOUNDS = {"label values": "all ints, both bools, 1 opaque float, 1 opaque bytes, 6 strings", "retries/requeues": "<= 2 quick / 3 thorough", "kicker operations": "<= 2 quick / 4 thorough"}
-REQUIRED_COVERS = ["int", "bool", "float", "str", "bytes", "retry", "requeue", "task_label", "kicker_label", "leak_history", "shared_task"]
+REQUIRED_COVERS = ["int", "bool", "float", "str", "bytes", "retry", "requeue", "task_label", "kicker_label", "leak_history", "shared_task", "boundary_values"]
 
 STRS = ["plain", "True", "123", "", " 7 ", "ünï"]
 KINDS = ("int", "bool", "float", "str", "bytes")
@@ -39,6 +39,8 @@ KINDS = ("int", "bool", "float", "str", "bytes")
 
 def cases(tier: str, hname: str) -> List[Any]:
     out: List[Any] = []
+    if hname == "boundary":
+        return [{"where": w} for w in ("task", "kicker")]
     if hname == "roundtrip":
         for kind in KINDS:
             for where in ("task", "kicker"):
@@ -230,7 +232,46 @@ def leak(c: sym.Ctx, case: Dict[str, Any]) -> None:
     c.check(exc is None, "history_completes", exc=repr(exc))
 
 
-HARNESSES = {"roundtrip": roundtrip, "leak": leak}
+BOUNDARY_VALUES = [0, -1, 2**70, 0.0, -0.0, 1e308, False, True, "", " ", "0", "False", "None", b"", b"\x00", b"\xff\xfe"]
+
+
+def boundary(c: sym.Ctx, case: Dict[str, Any]) -> None:
+    """boundary label values of the five primitive types through the real modules and the real JSON wire (no models)"""
+    c.cover("boundary_values")
+    lab = Lab(c)
+    try:
+        broker = make_broker(lab)
+        v = BOUNDARY_VALUES[c.choose(len(BOUNDARY_VALUES), "value")]
+        w = BOUNDARY_VALUES[c.choose(len(BOUNDARY_VALUES), "other")]
+
+        async def fn() -> None:
+            return None
+
+        declared = {"lbl": v} if case["where"] == "task" else {}
+        task = broker.task(task_name="t", **declared)(fn)
+        kicker = task.kicker()
+        if case["where"] == "kicker":
+            kicker = kicker.with_labels(lbl=v)
+        kicker = kicker.with_labels(other=w)
+
+        async def main() -> None:
+            await kicker.with_task_id("id0").kiq()
+
+        mt = lab.loop.create_task(main())
+        lab.drive(mt)
+        exc = mt.exception() if mt.done() else None
+    finally:
+        lab.close()
+    c.check(exc is None and len(broker.kicked) == 1, "pipeline_completes", exc=repr(exc), value=v)
+    if exc is None and broker.kicked:
+        msg = broker.formatter.loads(broker.kicked[0].message)
+        msg.parse_labels()
+        for key, want in (("lbl", v), ("other", w)):
+            got = msg.labels.get(key, "<missing>")
+            c.check(_same(got, want), "label_value_and_type_preserved", key=key, got=got, want=want, kind=type(want).__name__, history=[])
+
+
+HARNESSES = {"roundtrip": roundtrip, "leak": leak, "boundary": boundary}
 
 
 def signature(f: Dict[str, Any]) -> str:
